@@ -8,7 +8,7 @@ from func_adl.type_based_replacement import register_func_adl_os_collection, rem
 
 from vlib.sh.common import HI, LO, TWIN, L, attr, call, const, dump, lam, mcall, name, nt, pick, tick
 
-NPOSN = 12
+NPOSN = 14
 
 
 class Trk:
@@ -32,7 +32,25 @@ class Odd:
     def m3(_, a: int, b: int, c: int) -> float: ...  # noqa
 
 
+class Stat:
+    "static methods: no receiver among the parameters; signatures that end in *rest / **opts"
+    @staticmethod
+    def m1(a: int) -> float: ...  # noqa
+    @staticmethod
+    def m2(a: int, b: int) -> float: ...  # noqa
+    @staticmethod
+    def m3(a: int, b: int, c: int) -> float: ...  # noqa
+
+
+class Var:
+    def m1(self, a: int, *rest: int) -> float: ...  # noqa
+    def m2(self, a: int, b: int, **opts: int) -> float: ...  # noqa
+    def m3(self, a: int, b: int, c: int, *rest: int, **opts: int) -> float: ...  # noqa
+
+
 class Evt:
+    def stat(self) -> Stat: ...  # noqa
+    def var(self) -> Var: ...  # noqa
     def odd(self) -> Odd: ...  # noqa
     def m1(self, a: int) -> float: ...  # noqa
     def m2(self, a: int, b: int) -> float: ...  # noqa
@@ -113,13 +131,17 @@ def target(pos, n):
         return getattr(Odd, "m%d" % n), "m%d" % n
     if pos == 11:
         return getattr(Jet, "m%d" % n), "m%d" % n
+    if pos == 12:
+        return getattr(Stat, "m%d" % n), "m%d" % n
+    if pos == 13:
+        return getattr(Var, "m%d" % n), "m%d" % n
     if pos == 10:
         return [fs1, fs2, fs3][n - 1], "fs%d" % n
     return [fn1, fn2, fn3][n - 1], "fn%d" % n
 
 
 def is_method(pos):
-    return pos not in (5, 6, 10)
+    return pos not in (5, 6, 10, 12)
 
 
 def site(pos, fname, args, kws):
@@ -141,6 +163,8 @@ def site(pos, fname, args, kws):
         return TDS(), ast.BinOp(ast.Call(name(fname), args, kws), ast.Add(), const(1))
     if pos == 9:
         return TDS(), ast.Call(ast.Attribute(mcall(name("e"), "odd"), fname, L), args, kws)
+    if pos in (12, 13):
+        return TDS(), ast.Call(ast.Attribute(mcall(name("e"), "stat" if pos == 12 else "var"), fname, L), args, kws)
     if pos == 11:
         # the call site sits in a lambda that is handed to Where BY KEYWORD, inside the stream lambda; more typed call sites follow the Where
         w = ast.Call(ast.Attribute(mcall(name("e"), "Jets"), "Where", L), [], [ast.keyword("filter", lam("j", ast.Compare(ast.Call(attr("j", fname), args, kws), [ast.Gt()], [const(0)])))])
@@ -167,7 +191,7 @@ def op_calls(n):
 
 def c07(code: int, ndef: int, npos: int, kwmask: int, perm: int, v0: int, v1: int, v2: int, d0: int, d1: int, d2: int) -> str:
     """
-    pre: LO <= code < HI and 0 <= code < 36
+    pre: LO <= code < HI and 0 <= code < 42
     pre: 0 <= ndef <= 3 and 0 <= npos <= 3 and 0 <= kwmask < 8 and 0 <= perm < 6
     post: (_ == '') != TWIN
     """
@@ -180,7 +204,7 @@ def c07(code: int, ndef: int, npos: int, kwmask: int, perm: int, v0: int, v1: in
     if kwmask & ((1 << npos) - 1):
         return ""
     func, fname = target(pos, n)
-    pnames = list(inspect.signature(func).parameters)[1 if is_method(pos) else 0:]
+    pnames = [p.name for p in inspect.signature(func).parameters.values() if p.kind not in (p.VAR_POSITIONAL, p.VAR_KEYWORD)][1 if is_method(pos) else 0:]
     kwidx = [i for i in range(n) if (kwmask >> i) & 1]
     if perm >= len(PERMS[len(kwidx)]):
         return ""
@@ -197,7 +221,7 @@ def c07(code: int, ndef: int, npos: int, kwmask: int, perm: int, v0: int, v1: in
         try:
             ba = inspect.signature(func).bind(*([None] if is_method(pos) else []) + [a.value for a in args], **{k.arg: k.value.value for k in kws})
             ba.apply_defaults()
-            expect = list(ba.arguments.values())[1 if is_method(pos) else 0:]
+            expect = [v for k, v in ba.arguments.items() if k not in ("rest", "opts")][1 if is_method(pos) else 0:]
         except TypeError:
             expect = None
         stream, body = site(pos, fname, args, kws)
